@@ -167,6 +167,22 @@ class Walker:
         return None
 
     # ---- walk -------------------------------------------------------------------------------------
+    def _loops(self):
+        if getattr(self, "_loopinfo", None) is None:
+            cfg = cfg_of(self.fn)
+            info = {}
+            for a, h in cfg.back_edges():
+                body = info.setdefault(h, {h})
+                work = [a]
+                while work:
+                    b = work.pop()
+                    if b in body:
+                        continue
+                    body.add(b)
+                    work.extend(b.preds)
+            self._loopinfo = info
+        return self._loopinfo
+
     def run(self, init):
         st = PState()
         init(self, st)
@@ -188,16 +204,28 @@ class Walker:
             st.trail.append(block.name)
             # phis
             newv = {}
+            loops = self._loops()
             for i in block.instrs:
                 if i.op != "phi":
                     break
                 v = None
-                if prev is not None:
+                if block in loops:
+                    # loop header: an arbitrary iteration (the loop condition is assumed by the branch that follows)
+                    v = self.fresh(st, "%" + i.res, i.type) if i.type.startswith("i") else None
+                elif prev is not None:
                     for val, lab in i.x["incoming"]:
                         if lab == prev.name:
                             v = self.val(st, val)
                 newv[i.res] = v
             st.env.update(newv)
+            if block in loops:
+                # fields stored inside the loop are unknown at an arbitrary iteration
+                for b in loops[block]:
+                    for i in b.instrs:
+                        if i.op == "store":
+                            p = self.P.path(i.ops[1])
+                            if p in st.mem and isinstance(st.mem[p], Lin):
+                                st.mem[p] = self.fresh(st, p, i.ops[0].type)
             forks = None
             for i in block.instrs:
                 if i.op == "phi":
